@@ -48,9 +48,10 @@ import shutil
 from vlib import env
 
 THEOREMS = [
-    "step_safe", "run_take_safe", "finish_ready", "txn_crash_atomic",
-    "commit_crash_atomic", "pack_crash_atomic",
-    "commit_visible", "pack_visible", "leftovers_harmless",
+    "step_safe'", "run_take_safe", "finish_ready'", "txn_crash_atomic", "safe_crash_atomic",
+    "commit_crash_atomic", "commit_crash_atomic_planned", "pack_crash_atomic",
+    "commit_final_names", "commit_visible", "autopack_final_names", "autopack_visible",
+    "pack_final_names", "pack_visible", "commit_ops_enabled", "leftovers_harmless",
     "name_collision_witness",
 ]
 RULE = ("scenario = (format, build script: chunk sizes fetched / commits / packs, optional start from a crash copy, "
@@ -73,6 +74,7 @@ TRUSTED = [
 PREFIX = "verifc04+"
 SUBDIRS = (("upload", "u"), ("packs", "p"), ("indices", "i"), ("obsolete_packs", "o"))
 EXTS = ("pack", "autopack", "rix", "iix", "tix", "six", "cix")
+NONATOMIC = ("put_file_non_atomic", "put_bytes_non_atomic", "append_file", "append_bytes", "copy")
 
 
 # --------------------------------------------------------------------------
@@ -578,7 +580,7 @@ def gen_scenario(rng, i):
     if style == "tree":
         n = rng.choice([0, 1, 2, 8, 9, 9, 10])
         return dict(fmt=fmt, style="tree", ncommits=n, op=rng.choice([["c"], ["c"], ["p", False], ["p", True]]), idx=i)
-    budget = rng.choice([0, 3, 9, 9, 12, 19, 19, 24, 29, 35])
+    budget = rng.choice([0, 3, 9, 9, 12, 19, 19, 24, 29])
     while total < budget:
         if style == "ones":
             k = 1
@@ -730,10 +732,19 @@ def analyse(sc, path, names0, counts0, revs0, lst0, events, snaps, plan_log, tru
     states = []          # state string for each model prefix
     per_snap = []
     nops = 0
+    thorough = sc.get("thorough", False)
+    near = set()
+    for k, ev in enumerate(events):
+        if ev[0] == "put_file" or (ev[1] or "").startswith("lock") or ev[0] in ("ows", "close", "delete"):
+            near.update(range(k - 2, k + 4))
     for k, snap in enumerate(snaps):
         ev = events[k] if k < len(events) else None
         open_rel = ev[3] if ev is not None else ()
-        info = inspect(snap, truth)
+        # check() on every copy near a pack-names replacement / lock step and on every third copy of the
+        # long obsolete-move phases (all of them in the thorough tier); revisions, trees and texts are
+        # read on every copy
+        full_check = thorough or k in near or k % 3 == 0 or k >= len(snaps) - 2
+        info = inspect(snap, truth, do_check=full_check)
         locked = os.path.isdir(os.path.join(snap, ".bzr", "repository", "lock", "held"))
         what = []
         if info["revs"] is None:
@@ -744,22 +755,28 @@ def analyse(sc, path, names0, counts0, revs0, lst0, events, snaps, plan_log, tru
         what += info["problems"]
         if what:
             res["violations"].append(dict(k=k, at=(list(ev[:3]) if ev else "end"), what="; ".join(what[:3])))
-        # torn-write variants: every file that is open for writing truncated (to zero / to half its length)
-        for oi, o in enumerate(open_rel):
-            frac = (0, 2)[(k + oi) % 2]
-            var = snap + "-t"
-            shutil.copytree(snap, var, copy_function=os.link)
-            p = os.path.join(var, ".bzr", "repository", o)
+        # torn-write variants: every file that is open for writing truncated (to zero / to half its
+        # length) in place in the copy (open files are real copies, not links), then restored
+        torn_now = [(o, (0, 2)[(k + oi) % 2]) for oi, o in enumerate(open_rel)]
+        if k >= 1 and events[k - 1][0] in NONATOMIC:
+            # the previous call rewrote a file in place: a crash inside that call leaves it truncated
+            tgt = events[k - 1][2] if events[k - 1][0] == "copy" else events[k - 1][1]
+            if tgt is not None:
+                torn_now += [(tgt, 0), (tgt, 2)]
+        for o, frac in torn_now:
+            p = os.path.join(snap, ".bzr", "repository", o)
             try:
-                sz = os.path.getsize(p)
-                os.unlink(p)
-                with open(os.path.join(snap, ".bzr", "repository", o), "rb") as f:
+                with open(p, "rb") as f:
                     data = f.read()
+                if os.stat(p).st_nlink != 1:
+                    os.unlink(p)
                 with open(p, "wb") as f:
-                    f.write(data[: (sz // frac if frac else 0)])
+                    f.write(data[: (len(data) // frac if frac else 0)])
             except OSError:
-                pass
-            vi = inspect(var, truth)
+                continue
+            vi = inspect(snap, truth, do_check=full_check)
+            with open(p, "wb") as f:
+                f.write(data)
             w = []
             if vi["revs"] is None:
                 w.append("repository cannot be opened/listed")
@@ -769,7 +786,6 @@ def analyse(sc, path, names0, counts0, revs0, lst0, events, snaps, plan_log, tru
             if w:
                 res["violations"].append(dict(k=k, torn=o, frac=frac, at=(list(ev[:3]) if ev else "end"),
                                               what="torn %s: %s" % (o, "; ".join(w[:3]))))
-            shutil.rmtree(var, ignore_errors=True)
             res["torn_variants"] = res.get("torn_variants", 0) + 1
         st = fmt_state(nb, info["names"] or [], listing(snap), open_rel, locked)
         vis = "?" if info["revs"] is None else ("O" if info["revs"] == revs0 else "N" if info["revs"] == revs_new else "X")
@@ -939,22 +955,38 @@ def process(ctx, results):
 
 def run(ctx, n=None):
     register()
-    n = n or ctx.pick(40, 320)
+    n = n or ctx.pick(32, 300)
     rng = ctx.rng
     scs = [gen_scenario(rng, i) for i in range(n)]
+    for sc in scs:
+        sc["thorough"] = ctx.tier == "thorough"
     # the sources are built before forking
     for fmt in ("2a", "pack-0.92"):
-        source(fmt)
+        try:
+            source(fmt)
+        except Exception as e:
+            # plain commits / reading back what was committed fail: the property fails without any crash
+            ctx.violation(dict(scenario=dict(fmt=fmt, style="source", op=["c"], note="%d successive working-tree "
+                                             "commits, then reading every revision back" % NREV)),
+                          "a linear history cannot be built and read back: %s: %s" % (type(e).__name__, str(e)[:200]))
+            return
     results = ctx.pmap(run_scenario, scs, chunksize=1)
     process(ctx, results)
 
 
 def widen(ctx):
-    run(ctx, n=120)
+    run(ctx, n=48)
 
 
 def replay(ctx, case):
     register()
+    if case["scenario"].get("style") == "source":
+        try:
+            source(case["scenario"]["fmt"])
+            return dict(scenario=case["scenario"], oracle_failures=[])
+        except Exception as e:
+            ctx.violation(case, "a linear history cannot be built and read back: %s" % type(e).__name__)
+            return dict(scenario=case["scenario"], oracle_failures=[repr(e)[:300]])
     for fmt in ("2a", "pack-0.92"):
         source(fmt)
     r = run_scenario(case["scenario"])
